@@ -58,6 +58,9 @@ type C11Case struct {
 	OldServer bool     `json:"old_server,omitempty"`
 	Ops       []DiffOp `json:"ops"`
 	Raw       []RawReq `json:"raw"`
+	// Overrun adds a scenario in which a stalled remote subscriber overruns a tiny history: the terminal Errored
+	// event must travel through the server and reach the client
+	Overrun *WatchSpec `json:"overrun,omitempty"`
 }
 
 type c11 struct{}
@@ -106,11 +109,17 @@ func selectorOpts(i int) [][]resource.LabelQueryOption {
 		return [][]resource.LabelQueryOption{{resource.LabelLTENumeric("k", "abc")}} // non-numeric operand
 	case 11:
 		return [][]resource.LabelQueryOption{{resource.LabelLTNumeric("k", "1Ki")}} // unit suffix
+	case 12:
+		return [][]resource.LabelQueryOption{{resource.LabelEqual("k", "1", resource.NotMatches), resource.LabelExists("k")}} // inverted term first
+	case 13:
+		return [][]resource.LabelQueryOption{{resource.LabelExists("z", resource.NotMatches), resource.LabelIn("k", []string{"0", "1"})}}
+	case 14:
+		return [][]resource.LabelQueryOption{{resource.LabelLT("k", "2", resource.NotMatches), resource.LabelLTENumeric("k", "2")}, {resource.LabelExists("k", resource.NotMatches)}}
 	}
 	return nil
 }
 
-const numSelectors = 12
+const numSelectors = 15
 
 func (c11) Gen(seed uint64, tier string) Case {
 	r := simrt.NewRNG(seed)
@@ -197,6 +206,12 @@ func (c11) Gen(seed uint64, tier string) Case {
 		}
 		c.Ops = append(c.Ops, op)
 	}
+	if r.Bool(0.3) {
+		c.Overrun = &WatchSpec{Kind: []string{"kind", "agg", "single"}[r.Intn(3)], Type: TypeA, ID: "", Bootstrap: r.Bool(0.5), StallAfter: 1 + r.Intn(2), StallMs: 5000 + r.Intn(5000)}
+		if c.Overrun.Kind == "single" {
+			c.Overrun.ID, c.Overrun.Bootstrap = "r0", false
+		}
+	}
 	nr := 2 + r.Intn(8)
 	for i := 0; i < nr; i++ {
 		c.Raw = append(c.Raw, RawReq{Kind: rawKinds[r.Intn(len(rawKinds))], N: r.Intn(1000)})
@@ -237,6 +252,16 @@ func (c11) Shrink(cs Case) []Case {
 		n := cloneJSON(c)
 		n.OldServer = false
 		out = append(out, n)
+	}
+	if c.Overrun != nil {
+		n := cloneJSON(c)
+		n.Overrun = nil
+		out = append(out, n)
+		if len(c.Ops) > 0 || len(c.Raw) > 0 {
+			n2 := cloneJSON(c)
+			n2.Ops, n2.Raw = nil, nil
+			out = append(out, n2)
+		}
 	}
 	if c.Hist != (HistCfg{}) {
 		n := cloneJSON(c)
@@ -756,6 +781,40 @@ func (c11) Run(t *testing.T, cs Case, trace bool) *Outcome {
 				return
 			}
 			tr.checkServerAlive("C11", out)
+		}
+		if out.Viol == nil && c.Overrun != nil {
+			// stalled remote subscriber on a tiny history
+			wo := NewStoreWorld("inmem", HistCfg{Initial: 2, Max: 2})
+			ad, tro := remoteCore(wo.Core, &TransportFaults{StreamBuf: 0}, out)
+			rec := &WatchRec{Spec: *c.Overrun, Name: "overrun-watcher"}
+			oenv := &watchEnv{prop: "C11", st: ad, ev: &ev, out: out, commits: func(string, string) int { return 0 }}
+			s.Spawn("overrun-watcher", func() { runWatcher(ctx, oenv, rec, nil, nil) })
+			s.Spawn("overrun-writer", func() {
+				simrt.Sleep(time.Second)
+				for i := 0; i < 12; i++ {
+					id := "r0"
+					if i%3 == 2 {
+						id = "r1"
+					}
+					r := NewRes("ns1", TypeA, id, fmt.Sprintf("o%d", i))
+					if err := wo.St.Create(ctx, r); err != nil {
+						_, _ = wo.St.UpdateWithConflicts(ctx, r.Metadata(), func(x resource.Resource) error {
+							SpecOf(x).Val = fmt.Sprintf("o%d", i)
+							return nil
+						})
+					}
+				}
+			})
+			if r := s.Settle(400000); r != simrt.Quiescent {
+				out.HarnessErr = fmt.Sprintf("C11 overrun phase did not become quiescent: %v live=%v", r, s.Live())
+				return
+			}
+			tro.checkServerAlive("C11", out)
+			errored := len(rec.Events) > 0 && rec.Events[len(rec.Events)-1].Type == "Errored"
+			if out.Viol == nil && rec.Err == nil && !errored {
+				out.violate("C11/errored-lost", "errored-lost:"+rec.Spec.Kind, "a remote subscriber that overran the server's history (2 events retained, 12 written while it was stalled) did not receive the terminal Errored event a direct subscriber gets\nevents: %s", renderEvents(rec.Events))
+			}
+			out.probe("overrun-scenario")
 		}
 		out.Nontrivial = out.Probes["write-ok"] > 0 && out.Probes["watch-compared"] > 0
 		for k := range out.Probes {
